@@ -29,7 +29,7 @@ ASSUMPTIONS = [
     '(receiver metadata-free or both functions None, union/union)',
 ]
 ANCHORS = ['Table.merge', 'Table._fast_merge', 'Table._union_id_order', 'Table._intersect_id_order', 'prefer_self']
-REQUIRED = ['wide_universe_cases', 'fast_path_taken', 'general_path_taken', 'path_agreement_checked',
+REQUIRED = ['empty_axis_operand_cases', 'empty_axis_operand_merged', 'wide_universe_cases', 'fast_path_taken', 'general_path_taken', 'path_agreement_checked',
             'md_tap_calls_checked', 'empty_intersection_refused',
             'list_form', 'overlap_partial', 'overlap_disjoint',
             'overlap_nested', 'overlap_identical', 'mode_union_union',
@@ -127,6 +127,20 @@ def run_case(ctx, index):
     ov_s = r.choice(OVERLAPS)
     ao, bo = subsets(r, UO, ov_o)
     as_, bs = subsets(r, US, ov_s)
+    emptied = None
+    if index % 13 == 4:
+        # an operand with ids on one axis only (e.g. everything filtered
+        # away): it still brings those ids into a union
+        emptied = r.choice(['A-obs', 'A-samp', 'B-obs', 'B-samp'])
+        if emptied == 'A-obs':
+            ao = []
+        elif emptied == 'A-samp':
+            as_ = []
+        elif emptied == 'B-obs':
+            bo = []
+        else:
+            bs = []
+        ctx.count('empty_axis_operand_cases')
     vclass = r.choice(['int', 'dyadic'])
     mdcfg = r.choice(['neither', 'neither', 'receiver', 'other', 'both',
                       'mixed'])
@@ -134,8 +148,8 @@ def run_case(ctx, index):
         'neither': (0, 0, 0, 0), 'receiver': (1, 1, 0, 0),
         'other': (0, 0, 1, 1), 'both': (1, 1, 1, 1),
         'mixed': tuple(r.random() < .5 for _ in range(4))}[mdcfg]
-    A = operand(r, 'A', ao, as_, a_mo, a_ms, vclass)
-    B = operand(r, 'B', bo, bs, b_mo, b_ms, vclass)
+    A = operand(r, 'A', ao, as_, a_mo and ao, a_ms and as_, vclass)
+    B = operand(r, 'B', bo, bs, b_mo and bo, b_ms and bs, vclass)
     smode = r.choice(['union', 'intersection'])
     omode = r.choice(['union', 'intersection'])
     if index % 3 == 0:
@@ -147,6 +161,7 @@ def run_case(ctx, index):
     ctx.count('mode_%s_%s' % (smode, omode))
     desc = {'A': A.describe(), 'B': B.describe(), 'sample': smode,
             'observation': omode, 'mdf': mdf, 'overlap': [ov_o, ov_s],
+            'emptied': emptied,
             'layouts': [gen.layout_state(ta), gen.layout_state(tb)]}
     # ------------------------------------------------------ list form
     others_specs = [B]
@@ -196,6 +211,13 @@ def run_case(ctx, index):
     try:
         res = ta.merge(arg, sample=smode, observation=omode, **kw)
     except Exception as e:
+        if emptied and so and ss:
+            # merging an operand without observations / samples may be
+            # refused; what counts is that no wrong table comes back
+            ctx.count('empty_axis_operand_refused')
+            oracles.unchanged(ta, before_a, 'C09/refused-but-modified', desc)
+            ctx.case(desc, True)
+            return
         if not isinstance(e, ctx.TableException) and so and ss:
             raise
         if not so or not ss:
@@ -210,6 +232,8 @@ def run_case(ctx, index):
                         'case=%r' % (desc,))
     fast = ctx.fast_calls[0] > n0
     ctx.count('fast_path_taken' if fast else 'general_path_taken')
+    if emptied:
+        ctx.count('empty_axis_operand_merged')
     s = snap.snap(res)
     if set(s.obs_ids) != so or len(s.obs_ids) != len(so):
         raise Violation('C09/observation-id-set', 'result has %r, expected '
@@ -303,8 +327,14 @@ def run_case(ctx, index):
                       [{'dummy': 1} for _ in A.obs_ids], None)
         g1 = gen.build(ctx.biom, A1, 'dense')
         n2 = ctx.fast_calls[0]
-        rg = g1.merge(gen.build(ctx.biom, B0, 'dense'))
-        took_general = ctx.fast_calls[0] == n2
+        try:
+            rg = g1.merge(gen.build(ctx.biom, B0, 'dense'))
+        except Exception:
+            if not emptied:
+                raise
+            ctx.count('empty_axis_operand_refused')     # general path only
+            rg = None
+        took_general = ctx.fast_calls[0] == n2 and rg is not None
         if took_fast and took_general:
             sf, sg = snap.snap(rf), snap.snap(rg)
             if set(sf.obs_ids) != set(sg.obs_ids) or \
